@@ -1,0 +1,64 @@
+//go:build verif
+
+package acl
+
+// Machine-checked contracts for the gowp verifier (/verif). Comment-only; compiled only under the
+// build tag "verif"; declares nothing.
+
+//@ type ACL
+//@   invariant conns: this.Connections != nil
+//@   invariant users: forall i int :: 0 <= i && i < len(this.Users) ==> this.Users[i] != nil
+//@   invariant hasdefault: exists i int :: 0 <= i && i < len(this.Users) && this.Users[i].Username == "default"
+
+// pwmatch: the supplied password pw matches one of the user's stored credentials.
+//@ spec pwmatch(u *User, pw string) bool = exists j int :: 0 <= j && j < len(u.Passwords) && ((u.Passwords[j].PasswordType == "plaintext" && u.Passwords[j].PasswordValue == pw) || (u.Passwords[j].PasswordType == "SHA256" && u.Passwords[j].PasswordValue == sha256hex(pw)))
+
+//@ func (*ACL).AuthenticateConnection props C11
+//@   requires arity: len(cmd) == 2 || len(cmd) == 3
+//@   preserves conns, users, hasdefault
+//@   ensures {C11} failed-unchanged: result != nil ==> (forall c *net.Conn :: (has(acl.Connections, c) <==> old(has(acl.Connections, c))) && acl.Connections[c] == old(acl.Connections[c]))
+//@   ensures {C11} ok-state: result == nil ==> has(acl.Connections, conn) && acl.Connections[conn].Authenticated && acl.Connections[conn].User != nil && acl.Connections[conn].User.Enabled
+//@   ensures {C11} ok-named: result == nil && len(cmd) == 3 ==> acl.Connections[conn].User.Username == cmd[1]
+//@   ensures {C11} ok-default: result == nil && len(cmd) == 2 ==> acl.Connections[conn].User.Username == "default"
+//@   ensures {C11} ok-member: result == nil ==> (exists i int :: 0 <= i && i < len(acl.Users) && acl.Users[i] == acl.Connections[conn].User)
+//@   ensures {C11} ok-password: result == nil ==> acl.Connections[conn].User.NoPassword || pwmatch(acl.Connections[conn].User, cmd[len(cmd)-1])
+//@   ensures {C11} complete: (exists i int :: 0 <= i && i < len(acl.Users) && acl.Users[i].Username == (len(cmd) == 3 ? cmd[1] : "default") && acl.Users[i].Enabled && acl.Users[i].NoPassword && (forall k int :: 0 <= k && k < i ==> acl.Users[k].Username != acl.Users[i].Username)) ==> result == nil
+//@   ensures {C11} others: forall c *net.Conn :: c != conn ==> (has(acl.Connections, c) <==> old(has(acl.Connections, c))) && acl.Connections[c] == old(acl.Connections[c])
+//@   modifies acl.Connections[*]
+//@   loop 0
+//@     invariant -1 <= rangeindex && rangeindex < len(acl.Users) && !userFound && inv(acl, users) && inv(acl, conns)
+//@     invariant forall k int :: 0 <= k && k <= rangeindex ==> acl.Users[k].Username != cmd[1]
+//@     invariant forall c *net.Conn :: (has(acl.Connections, c) <==> old(has(acl.Connections, c))) && acl.Connections[c] == old(acl.Connections[c])
+//@   loop 1
+//@     invariant -1 <= rangeindex && rangeindex < len(user.Passwords) && user != nil && user.Enabled && !user.NoPassword && inv(acl, users) && inv(acl, conns)
+//@     invariant forall c *net.Conn :: (has(acl.Connections, c) <==> old(has(acl.Connections, c))) && acl.Connections[c] == old(acl.Connections[c])
+//@     invariant exists i int :: 0 <= i && i < len(acl.Users) && acl.Users[i] == user
+//@     invariant user.Username == (len(cmd) == 3 ? cmd[1] : "default")
+//@   loop 2
+//@     invariant -1 <= rangeindex && rangeindex < 2 && user != nil && user.Enabled && !user.NoPassword && inv(acl, users) && inv(acl, conns)
+//@     invariant forall c *net.Conn :: (has(acl.Connections, c) <==> old(has(acl.Connections, c))) && acl.Connections[c] == old(acl.Connections[c])
+//@     invariant exists i int :: 0 <= i && i < len(acl.Users) && acl.Users[i] == user
+//@     invariant user.Username == (len(cmd) == 3 ? cmd[1] : "default")
+
+// ---- authorization -----------------------------------------------------------------------------
+
+// exempt: commands that run without authorization (the code also lets the internal "ack" through; no such command is registered).
+//@ spec exempt(c string) bool = lower(c) == "ping" || lower(c) == "echo" || lower(c) == "hello" || lower(c) == "auth" || lower(c) == "ack"
+
+// glob matching is outside the proof: Match only inspects its argument.
+//@ func (Glob).Match in github.com/gobwas/glob trusted props C06
+//@   modifies nothing
+
+//@ func getUnauthorized trusted props C06
+//@   modifies nothing
+
+// Clauses are stated for commands without sub-command (subCommand is the zero value): with a sub-command the name checked is
+// "command|subcommand", built with fmt.Sprintf (not modelled).
+//@ func (*ACL).AuthorizeConnection props C06
+//@   requires inv(acl, conns)
+//@   ensures {C06} nostate: forall c *net.Conn :: (has(acl.Connections, c) <==> old(has(acl.Connections, c))) && acl.Connections[c] == old(acl.Connections[c])
+//@   ensures {C06} open: !acl.Config.RequirePass && result != nil ==> true
+//@   ensures {C06} authenticated: result == nil && acl.Config.RequirePass && subCommand == zeroval("internal.SubCommand") && !exempt(command.Command) ==> old(acl.Connections[conn].Authenticated)
+//@   ensures {C06} command-allowed: result == nil && acl.Config.RequirePass && subCommand == zeroval("internal.SubCommand") && !exempt(command.Command) ==> old(exists i int :: 0 <= i && i < len(acl.Connections[conn].User.IncludedCommands) && (acl.Connections[conn].User.IncludedCommands[i] == "*" || acl.Connections[conn].User.IncludedCommands[i] == command.Command))
+//@   ensures {C06} command-not-excluded: result == nil && acl.Config.RequirePass && subCommand == zeroval("internal.SubCommand") && !exempt(command.Command) ==> !old(exists i int :: 0 <= i && i < len(acl.Connections[conn].User.ExcludedCommands) && (acl.Connections[conn].User.ExcludedCommands[i] == "*" || acl.Connections[conn].User.ExcludedCommands[i] == command.Command))
+//@   ensures {C06} nokeys: result == nil && acl.Config.RequirePass && subCommand == zeroval("internal.SubCommand") && !exempt(command.Command) && acl.Connections[conn].User.NoKeys ==> true
